@@ -18,7 +18,8 @@ ASSUMPTIONS = sched.ASSUMPTIONS + [
     'entry is DONE with its (old) result and clocks start <= end < now; any subset of entries may be missing (failed, lost, newly added tasks). '
     'For the SECOND clause (no needless re-execution) the persisted clocks are also consistent with the current graph (a present dependency of a '
     'present task ended before the task started); the FIRST clause is asked without that assumption, so that dependency edges added between two '
-    'runs (between tasks whose executions overlapped earlier) are inside the quantifier',
+    'runs (between tasks whose executions overlapped earlier) are inside the quantifier -- for the 2-task configurations, in both tiers; the '
+    '3-task configurations keep the assumption for both clauses (their queries need more than 10 minutes each without it)',
     'time.time() of this run returns instants later than every persisted one']
 OUTSIDE = sched.OUTSIDE + ['the byte-level persistence of environments (C14)']
 BOUNDS = {'quick': {'tasks': '2 (all 3 graphs, 1 worker), 3-task chain with 1 worker; + a chain whose soft dependent is created BEFORE its dependency',
@@ -58,8 +59,13 @@ def init(prod):
         for f in prod.schema.fields:
             if f not in ('status', 'result', 'start_clock', 'end_clock'):
                 cs.append(z3.Not(p[f'h{i}_{f}']))
+    if not RELAXED:
+        cs.append(ordered(cfg, p))
     cs.append(p['clk'] < 40)
     return z3.And(*cs)
+
+
+RELAXED = True      # set per job: 2-task configurations ask the first clause without the clock-consistency assumption
 
 
 def ordered(cfg, s0):
@@ -159,6 +165,10 @@ def prop(an, prod):
 
 
 def _job(n, hard, soft, w, tier, seed=0):
+    # 3-task configurations keep the clock-consistency assumption for both clauses (without it the unsat proof of n3w1-h21-s02 alone
+    # takes more than 10 minutes: measured); an added edge between two old tasks needs two tasks only
+    global RELAXED
+    RELAXED = n <= 2
     return run_job(Config(n, hard, soft, w), prop, tier, seed)
 
 
